@@ -40,8 +40,16 @@ def builtin_fn(ex, st, nm, e, cx, k):
                 return k(st, SV(INT, z3.Length(v.z)))
             if t.kind == 'cfg':
                 return k(st, SV(INT, ex.uf('cfg_len', z3.IntSort(), z3.IntSort())(v.z)))
-            if t.kind in ('dict', 'set', 'mset'):
-                raise VCError('len of dict/set outside subset')
+            if t.kind == 'set':
+                # only emptiness is characterised:  len(s) >= 0  and  len(s) == 0  iff  s has no member
+                n_ = ex.fresh_z(z3.IntSort(), 'setlen')
+                x_ = z3.Const('x!sl', T.sort_of(t.args[0]))
+                members = ex.set_content(st, v)
+                st = st.assume(n_ >= 0, (n_ == 0) == z3.ForAll([x_], z3.Not(z3.Select(members, x_)),
+                                                                patterns=[z3.Select(members, x_)]))
+                return k(st, SV(INT, n_))
+            if t.kind in ('dict', 'mset'):
+                raise VCError('len of dict outside subset')
             raise VCError(f'len of {t!r} outside subset')
         return ex.ev(st, args[0], cx, f)
     if nm == 'isinstance':
@@ -244,6 +252,41 @@ def module_fn(ex, st, mod, attr, e, cx, k):
         return ex.ev_list(st, args, cx, f)
     if mod == 're' and attr == 'compile':
         return k(st, SV(OPAQUE, I(0)))
+    if mod == 're' and attr == 'escape':
+        return ex.ev(st, args[0], cx, lambda s_, v: k(s_, SV(STR, ex.uf('re_escape', z3.StringSort(), z3.StringSort())(v.z))))
+    if mod == 're' and attr == 'findall':
+        # re.findall(pattern, text): the list of all matches, in order -- abstractly: a list enumerating exactly the
+        # set  matches(pattern, text)  (trusted library semantics; pos is the first index of a match in the list)
+        def ffind(st, vs):
+            pat, text = vs[0], vs[1]
+            ms = ex.uf('re_matches', z3.StringSort(), z3.StringSort(), z3.ArraySort(z3.StringSort(), z3.BoolSort()))(pat.z, text.z)
+            n_ = ex.fresh_z(z3.IntSort(), 'nfound')
+            arr = ex.fresh_z(z3.ArraySort(z3.IntSort(), z3.StringSort()), 'found')
+            ex.counter += 1
+            pos = z3.Function(f'foundpos!{ex.counter}', z3.StringSort(), z3.IntSort())
+            j_, w_ = z3.Int('j!fa'), z3.String('w!fa')
+            st = st.assume(n_ >= 0,
+                           z3.ForAll([j_], z3.Implies(z3.And(j_ >= 0, j_ < n_), z3.Select(ms, z3.Select(arr, j_))),
+                                     patterns=[z3.Select(arr, j_)]),
+                           z3.ForAll([w_], z3.Implies(z3.Select(ms, w_), z3.And(pos(w_) >= 0, pos(w_) < n_,
+                                                                               z3.Select(arr, pos(w_)) == w_)),
+                                     patterns=[z3.Select(ms, w_)]))
+            s2, r = ex.new_list(st, T.lst(STR), n_, arr, 'findall')
+            return k(s2, r)
+        return ex.ev_list(st, args[:2], cx, ffind)
+    if mod == 're' and attr == 'sub' and len(args) == 3:
+        # re.sub(pattern, replacement, text) with a constant replacement (a string, or `lambda m: <string>`)
+        repl = args[1]
+        if isinstance(repl, ast.Lambda) and isinstance(repl.body, ast.Name):
+            repl = repl.body
+
+        def fsub(st, vs):
+            pat, rp, text = vs
+            if rp.ty.kind != 'str':
+                raise VCError('re.sub with a non-constant replacement')
+            f_ = ex.uf('re_sub', z3.StringSort(), z3.StringSort(), z3.StringSort(), z3.StringSort())
+            return k(st, SV(STR, f_(pat.z, rp.z, text.z)))
+        return ex.ev_list(st, [args[0], repl, args[2]], cx, fsub)
     if mod == 'os.path*':
         # path manipulation is opaque: some string / some boolean (the file system is outside the contract)
         # path functions are deterministic functions of their arguments (the file system does not change during a call)
@@ -400,6 +443,22 @@ def builtin_method(ex, st, obj, mname, args, kwargs, cx, node, k):
             x = ex.coerce(args[0], ety)
             arr = ex.heap_get(st, key_, srt)
             return k(st.setheap(key_, z3.Store(arr, obj.z, z3.Store(content, x.z, z3.BoolVal(True)))), NONE_SV)
+        if mname == 'update':
+            o = args[0]
+            arr = ex.heap_get(st, key_, srt)
+            if o.ty.kind == 'list':
+                n_ = z3.simplify(ex.list_len(st, o))
+                if z3.is_int_value(n_) and n_.as_long() <= 4:
+                    c2 = content
+                    for j_ in range(n_.as_long()):
+                        c2 = z3.Store(c2, ex.list_at(st, o, I(j_)), z3.BoolVal(True))
+                    return k(st.setheap(key_, z3.Store(arr, obj.z, c2)), NONE_SV)
+            if o.ty.kind in ('set',):
+                oc = ex.set_content(st, o)
+                x_ = z3.Const('x!upd', T.sort_of(ety))
+                c2 = z3.Lambda([x_], z3.Or(z3.Select(content, x_), z3.Select(oc, x_)))
+                return k(st.setheap(key_, z3.Store(arr, obj.z, c2)), NONE_SV)
+            raise VCError('set.update argument outside subset')
         if mname == 'copy':
             s2, r = ex.alloc(st, t, 'setcpy')
             arr = ex.heap_get(s2, key_, srt)
